@@ -18,21 +18,25 @@ else
 fi
 [ -n "$ID" ] || { echo "usage: $0 <ID> <quick|thorough>"; exit 3; }
 
-./gen_gomod.sh || { echo "VIOLATION property=$ID replay=$VERIF_DIR/check.sh (cannot generate go.mod)"; exit 1; }
+# concurrent invocations (several checks at once) share harness/go.mod: serialise its regeneration
+flock "$BIN/.gomod.lock" ./gen_gomod.sh || { echo "VIOLATION property=$ID replay=$VERIF_DIR/check.sh (cannot generate go.mod)"; exit 1; }
 build() { # $1 = output, rest = extra flags
   local out="$1"; shift
-  (cd harness && go build -tags verif "$@" -o "$out" ./cmd/verifh) 2>"$BIN/build-$ID.log"
+  (cd harness && go build -tags verif "$@" -o "$out" ./cmd/verifh) 2>"$BIN/build-$ID-$TIER.log"
 }
-if ! build "$BIN/verifh-$ID"; then
+# one binary per invocation (a concurrent run of the same check must not execute a half-written file)
+EXE="$BIN/verifh-$ID-$TIER-$$"
+trap 'rm -f "$EXE" "$EXE-race"' EXIT
+if ! build "$EXE"; then
   # a tree that does not build cannot satisfy the property: report, do not pass
-  cat "$BIN/build-$ID.log" | head -30
-  mkdir -p replay/$ID; cp "$BIN/build-$ID.log" replay/$ID/build-failure.log
+  cat "$BIN/build-$ID-$TIER.log" | head -30
+  mkdir -p replay/$ID; cp "$BIN/build-$ID-$TIER.log" replay/$ID/build-failure.log
   echo "VIOLATION property=$ID replay=$VERIF_DIR/replay/$ID/build-failure.log"
   exit 1
 fi
-export VERIF_BIN="$BIN/verifh-$ID"
+export VERIF_BIN="$EXE"
 if [ -n "$VERIF_RACE" ] || { [ "$TIER" = thorough ] && { [ "$ID" = C01 ] || [ "$ID" = C03 ]; }; }; then
-  build "$BIN/verifh-$ID-race" -race && export VERIF_BIN_RACE="$BIN/verifh-$ID-race"
+  build "$EXE-race" -race && export VERIF_BIN_RACE="$EXE-race"
 fi
 
 LOG="$BIN/run-$ID-$TIER.log"
